@@ -94,6 +94,10 @@ def family_sort(m, tier, add_bench, open_mod, close_mod):
     add_bench(m, path, 4, "gen_consts", consts=[10, 9, 100, 1])
     add_bench(m, path, 4, "gen_types", types=["TC", "TA", "TB"])
     add_bench(m, path, 4, "gen_tc", types=["TB", "TA"], consts=[20, 3])
+    # constants sort by their own ordering: negatives, chars, bools
+    add_bench(m, path, 4, "gen_i32", consts=["-3", "10", "2", "-20"], const_ty="i32")
+    add_bench(m, path, 4, "gen_char", consts=["'b'", "'a'", "'Z'"], const_ty="char", const_labels_given=["b", "a", "Z"])
+    add_bench(m, path, 4, "gen_bool", consts=["true", "false"], const_ty="bool")
     g2 = open_mod(m, path, 4, "B_group", group={"display": "a0 shown first by name"})
     add_bench(m, g2, 8, "only")
     close_mod(m, 4)
@@ -167,7 +171,19 @@ def family_panic(m, tier, add_bench, open_mod, close_mod):
     close_mod(m, 0)
 
 
+def family_alloc(m, tier, add_bench, open_mod, close_mod):
+    """Benchmarks with an exactly known allocation pattern, through the real global AllocProfiler (C02 / C10 end to end)."""
+    top = "alc"
+    m.families[top] = "alloc"
+    path = open_mod(m, [], 0, top)
+    add_bench(m, path, 4, "exact_t1", form="bencher", bencher_style="alloc_exact", body="quiet", options=[("sample_count", "3"), ("sample_size", "4")])
+    add_bench(m, path, 4, "exact_t2", form="bencher", bencher_style="alloc_exact", body="quiet", options=[("sample_count", "4"), ("sample_size", "2"), ("threads", "2")])
+    add_bench(m, path, 4, "exact_tuned", form="bencher", bencher_style="alloc_exact", body="quiet", options=[("sample_count", "2")], cost=30000)
+    close_mod(m, 0)
+
+
 def more_families(m, tier, add_bench, open_mod, close_mod):
+    family_alloc(m, tier, add_bench, open_mod, close_mod)
     family_shapes(m, tier, add_bench, open_mod, close_mod)
     family_sort(m, tier, add_bench, open_mod, close_mod)
     family_options(m, tier, add_bench, open_mod, close_mod)
